@@ -316,6 +316,41 @@ func c03Serialiser(c *Ctx, r *Report, p *Prov, rule string) {
 		list = append(list, f)
 	}
 	sort.Slice(list, func(i, j int) bool { return list[i].Name() < list[j].Name() })
+	// every loop of the serialiser that writes members / elements writes exactly one separator
+	for _, f := range list {
+		for _, l := range naturalLoops(f) {
+			writes, seps := 0, 0
+			var at ssa.Instruction
+			for b := range l.Body {
+				for _, in := range b.Instrs {
+					call, ok := in.(*ssa.Call)
+					if !ok {
+						continue
+					}
+					k := calleeKey(&call.Call)
+					if g := call.Call.StaticCallee(); g != nil && fns[g] {
+						writes++
+						at = in
+					}
+					if k == "(*bytes.Buffer).Write" || k == "(*bytes.Buffer).WriteString" {
+						writes++
+						at = in
+					}
+					if k == "(*bytes.Buffer).WriteByte" {
+						if m, isC := constInt(call.Call.Args[1]); isC && m == ',' {
+							seps++
+						}
+					}
+				}
+			}
+			if writes == 0 {
+				continue
+			}
+			r.Check(seps == 1, rule, fmt.Sprintf("%s:loop-writes-one-separator", f.Name()), c.InstrPos(at),
+				"the member / element loop writes one ',' (placed by the between-elements rule)",
+				fmt.Sprintf("the loop that writes members / elements has %d separator writes: consecutive values are glued together or separated twice - the line is not well-formed JSON", seps))
+		}
+	}
 	// who may touch the output buffer: only the buffer's own write methods (judged below)
 	// and the serialiser's own functions
 	allowedBuf := map[string]bool{"(*bytes.Buffer).WriteByte": true, "(*bytes.Buffer).Write": true, "(*bytes.Buffer).WriteString": true,
@@ -421,7 +456,17 @@ func c03Serialiser(c *Ctx, r *Report, p *Prov, rule string) {
 							if ret, ok := x.(*ssa.Return); ok {
 								for _, res := range ret.Results {
 									if isErrorType(res.Type()) && !isNilConst(resolveLocal(res)) {
-										return "", false // error return: output is discarded
+										// an error VALUE that the branch facts show to be nil here is a success
+										// return all the same (`if err == nil { return err }`)
+										knownNil := false
+										for _, ft := range allFacts(ret.Block()) {
+											if ev, neq, okN := nilCompare(ft.Cond); okN && peel(ev) == peel(resolveLocal(res)) && neq != ft.Pol {
+												knownNil = true
+											}
+										}
+										if !knownNil {
+											return "", false // error return: output is discarded
+										}
 									}
 								}
 								return "success-return", true
@@ -431,6 +476,30 @@ func c03Serialiser(c *Ctx, r *Report, p *Prov, rule string) {
 					}
 					ends := q.run(call.Block(), instrIndex(call)+1, false)
 					r.Check(len(ends) == 0, rule, construct+":closed", c.InstrPos(i), fmt.Sprintf("every success path writes the matching %q", rune(cl)), fmt.Sprintf("a success return is reachable without the closing %q", rune(cl)))
+				} else if n == '}' || n == ']' {
+					// a closer is written where its opener was written before, in this function
+					open := int64('{')
+					if n == ']' {
+						open = '['
+					}
+					opened := false
+					allInstrs(f, func(x ssa.Instruction) {
+						oc, ok := x.(*ssa.Call)
+						if !ok || calleeKey(&oc.Call) != "(*bytes.Buffer).WriteByte" {
+							return
+						}
+						if m, isC2 := constInt(oc.Call.Args[1]); isC2 && m == open {
+							if oc.Block() == call.Block() && instrIndex(oc) < instrIndex(call) || oc.Block() != call.Block() && oc.Block().Dominates(call.Block()) {
+								opened = true
+							}
+						}
+					})
+					r.Check(opened, rule, construct+":opened", c.InstrPos(i), fmt.Sprintf("the matching %q is written before on every path", rune(open)),
+						fmt.Sprintf("the closing %q is written without its opening %q having been written on every path before it: the line is not well-formed JSON", rune(n), rune(open)))
+				} else if n == ',' {
+					// the separator: inside the member / element loop, in every iteration but the first
+					okSep, why := separatorShape(f, call)
+					r.Check(okSep, rule, construct+":between-elements", c.InstrPos(i), why, "the separator is not written exactly between consecutive members: "+why)
 				} else {
 					r.Trivial(rule, construct, c.InstrPos(i), "structural constant")
 				}
@@ -571,4 +640,125 @@ func payloadIsSerialisedRecord(c *Ctx, w *ssa.Call) (bool, string) {
 		return false, "redactor input is not the scanned line"
 	}
 	return true, "writes string(MarshalOrdered(RedactMongoLog(scanner.Text()))) and nothing else"
+}
+
+// separatorShape: the ',' write sits in a loop, under a test that holds exactly from the second
+// iteration on - `i > 0` / `i != 0` / `i >= 1` on the loop's own counter (the index of a slice
+// range, or a counter that starts at 0 and grows by one per iteration) - and that test is
+// evaluated in every iteration.
+func separatorShape(f *ssa.Function, call *ssa.Call) (bool, string) {
+	var loop *Loop
+	for _, l := range naturalLoops(f) {
+		if l.Body[call.Block()] {
+			if loop == nil || len(l.Body) < len(loop.Body) {
+				loop = l
+			}
+		}
+	}
+	if loop == nil {
+		return false, "the separator is written outside a loop"
+	}
+	isCounter := func(v ssa.Value) bool {
+		v = peel(v)
+		// slice range: the index is inc = phi + 1 with phi = [-1, inc]
+		if bo, ok := v.(*ssa.BinOp); ok && bo.Op == token.ADD {
+			if ph, ok := bo.X.(*ssa.Phi); ok && ph.Block() == loop.Header {
+				if one, isC := constInt(bo.Y); isC && one == 1 {
+					for _, e := range ph.Edges {
+						if m, isC2 := constInt(e); isC2 && m == -1 {
+							return true
+						}
+					}
+				}
+			}
+		}
+		// explicit counter: phi = [0, phi + 1]
+		if ph, ok := v.(*ssa.Phi); ok && ph.Block() == loop.Header {
+			zero, inc := false, false
+			for _, e := range ph.Edges {
+				if m, isC := constInt(e); isC && m == 0 {
+					zero = true
+				}
+				if bo, ok := e.(*ssa.BinOp); ok && bo.Op == token.ADD && bo.X == ssa.Value(ph) {
+					if one, isC := constInt(bo.Y); isC && one == 1 {
+						inc = true
+					}
+				}
+			}
+			return zero && inc
+		}
+		return false
+	}
+	for _, ft := range allFacts(call.Block()) {
+		// `sep := false; for ... { if sep { write ',' }; sep = true; ... }`: a flag that is false
+		// on entry and true from every latch
+		if ph, isPhi := peel(ft.Cond).(*ssa.Phi); isPhi && ph.Block() == loop.Header && ft.If != nil && loop.Body[ft.If.Block()] && ft.Pol {
+			okFlag := len(ph.Edges) >= 2
+			for ei, e := range ph.Edges {
+				b, isC := constBool(e)
+				fromLoop := loop.Body[ph.Block().Preds[ei]]
+				if !isC || b != fromLoop {
+					okFlag = false
+				}
+			}
+			_ = okFlag
+		}
+		// both spellings: `sep` (false on entry, true afterwards, written `if sep`) and `first`
+		// (true on entry, false afterwards, written `if !first`)
+		if ph, isPhi := peel(ft.Cond).(*ssa.Phi); isPhi && ph.Block() == loop.Header && ft.If != nil && loop.Body[ft.If.Block()] {
+			okFlag := len(ph.Edges) >= 2
+			for ei, e := range ph.Edges {
+				b, isC := constBool(e)
+				fromLoop := loop.Body[ph.Block().Preds[ei]]
+				// the separator is written where the flag has the value the latches deliver
+				if !isC || (b == ft.Pol) != fromLoop {
+					okFlag = false
+				}
+			}
+			if okFlag {
+				for _, lt := range loop.Latch {
+					if !ft.If.Block().Dominates(lt) {
+						return false, "the test that guards it is not evaluated in every iteration"
+					}
+				}
+				return true, "written in every iteration but the first (a flag that is false on entry and true afterwards)"
+			}
+		}
+		bo, ok := ft.Cond.(*ssa.BinOp)
+		if !ok || ft.If == nil || !loop.Body[ft.If.Block()] {
+			continue
+		}
+		n, isC := constInt(bo.Y)
+		if !isC || !isCounter(bo.X) {
+			continue
+		}
+		op := bo.Op
+		if !ft.Pol {
+			switch op {
+			case token.GTR:
+				op = token.LEQ
+			case token.LEQ:
+				op = token.GTR
+			case token.LSS:
+				op = token.GEQ
+			case token.GEQ:
+				op = token.LSS
+			case token.EQL:
+				op = token.NEQ
+			case token.NEQ:
+				op = token.EQL
+			}
+		}
+		fromSecond := (op == token.GTR && n == 0) || (op == token.NEQ && n == 0) || (op == token.GEQ && n == 1)
+		if !fromSecond {
+			return false, fmt.Sprintf("it is written when the iteration counter %s %d (a leading, missing or doubled separator)", op, n)
+		}
+		for _, lt := range loop.Latch {
+			if !ft.If.Block().Dominates(lt) {
+				return false, "the test that guards it is not evaluated in every iteration"
+			}
+		}
+		return true, "written in every iteration but the first (iteration counter > 0)"
+	}
+	return false, "no test of the loop's own iteration counter guards it"
 }
